@@ -55,6 +55,12 @@ func persistedAfter(x hev, evs []hev, prefix string) bool {
 		if y.ev.Kind == "store.set" && hasPrefix(y.ev, prefix) && (followedBy(x.ev, y.ev) || followedByCall(x.ev, y.ev)) {
 			return true
 		}
+		// (the write-back is under a flag that is raised under the very condition of the
+		// change - `if !deposit.Empty() { updated = true } … if updated { store }`: implied
+		// by the facts of the change)
+		if y.ev.Kind == "store.set" && hasPrefix(y.ev, prefix) && x.w != nil && reachesBefore(x.ev, y.ev) && impliedByFacts(x.w, x.ev, y.ev) {
+			return true
+		}
 	}
 	return false
 }
